@@ -277,6 +277,12 @@ func (c *child) do(srv, method, path, rawq string, headers map[string]string, bo
 	go c.serve(h, r, e, done)
 	timer := time.NewTimer(c.bound)
 	defer timer.Stop()
+	var early <-chan time.Time
+	if len(fastSites) > 0 && c.bound > fastAfter {
+		et := time.NewTimer(fastAfter)
+		defer et.Stop()
+		early = et.C
+	}
 	var mem <-chan time.Time
 	if memLimitMB > 0 {
 		tk := time.NewTicker(40 * time.Millisecond)
@@ -289,18 +295,27 @@ func (c *child) do(srv, method, path, rawq string, headers map[string]string, bo
 			c.cur.MS = int(time.Since(t0) / time.Millisecond)
 			return res, nil
 		case <-timer.C:
-			c.timeout(fmt.Sprintf("no response within %d ms", c.bound/time.Millisecond))
+			c.timeout(fmt.Sprintf("no response within %d ms", c.bound/time.Millisecond), false)
+		case <-early:
+			// still running in a call site where this run has already confirmed (twice, alone, long bound) that
+			// the handler does not return: do not wait for the full bound
+			c.timeout(fmt.Sprintf("still running after %d ms in a call site confirmed as non-terminating", fastAfter/time.Millisecond), true)
 		case <-mem:
 			var ms runtime.MemStats
 			runtime.ReadMemStats(&ms)
 			if ms.HeapAlloc > uint64(memLimitMB)<<20 {
-				c.timeout(fmt.Sprintf("heap grew beyond %d MiB while the handler was running", memLimitMB))
+				c.timeout(fmt.Sprintf("heap grew beyond %d MiB while the handler was running", memLimitMB), false)
 			}
 		}
 	}
 }
 
 var memLimitMB = 0
+
+// fastSites: call sites confirmed as non-terminating earlier in this run (parent flag -fastsites)
+var fastSites = map[string]bool{}
+
+const fastAfter = 150 * time.Millisecond
 
 // repoChain: the frames inside the repository of the handler goroutine, innermost first.
 func repoChain(blk string) (chain []string, top string) {
@@ -318,7 +333,7 @@ func repoChain(blk string) (chain []string, top string) {
 	return
 }
 
-func (c *child) timeout(why string) {
+func (c *child) timeout(why string, onlyFast bool) {
 	// the call site of a handler that does not return: the innermost repository frame that is on the stack in
 	// three dumps taken 25 ms apart (a loop calling small helpers is identified by the looping function)
 	var common []string
@@ -341,6 +356,9 @@ func (c *child) timeout(why string) {
 	site := ""
 	if len(common) > 0 {
 		site = common[0]
+	}
+	if onlyFast && !fastSites[site] {
+		return // some other place: keep waiting for the full bound
 	}
 	o := c.cur
 	o.Kind, o.Site, o.Top, o.Msg = "timeout", site, top, why
